@@ -152,6 +152,17 @@ func c13Rules(p *core.Prog, r *core.Run) {
 		default:
 			continue
 		}
+		// the accumulator's starting value counts against the budget
+		x.Walk(func(e *core.Expr) bool {
+			if e.Op == "phi" {
+				for _, a := range e.Args {
+					if k0, ok := a.ConstInt(); ok && k0 > 0 {
+						max -= k0
+					}
+				}
+			}
+			return true
+		})
 		nBudget++
 		r.Check("C13.NAMES", "decoder:name-octets-limit", max >= 254, p.InstrPos(iff), "the decoder's name budget lets the sum of (label length + 1) reach %d; names of the maximum wire length (255 octets with the final zero, e.g. 127 one-octet labels) need 254, and the encoder emits them", max)
 	}
